@@ -10,7 +10,7 @@ import glob, json, os, shutil, sys, re
 
 ROOT = '/verif'
 res = {}
-for tsv in ('results_final3.tsv', 'results_w4.tsv', 'results_w5.tsv'):
+for tsv in ('results_final3.tsv', 'results_final4.tsv', 'results_w4.tsv', 'results_w5.tsv'):
     if not os.path.exists(f'{ROOT}/work/mut/{tsv}'):
         continue
     for line in open(f'{ROOT}/work/mut/{tsv}'):
